@@ -541,6 +541,66 @@ func TestShortScalars(t *testing.T) {
 	}
 }
 
+// ---- library signers announcing every algorithm name ---------------------------------------------------------
+
+// TestAlgNameMatrix: the verifier derives the digest from the key's curve and only demands that an alg header is
+// present; a signer of the library constructed with any algorithm name must therefore produce a JWS that verifies
+// under the matching key - also when the name is the registered one of another curve (seeding round k: a signer that
+// picks its digest from the announced name instead of the curve).
+func TestAlgNameMatrix(t *testing.T) {
+	ev.Rule(chkSweep, "alg-name matrix: for each of the 5 key types x announced algorithm name {ES256, ES256K, ES384, ES512, EdDSA, alg} x kid {none, k1} x payload {JSON, binary 1 B, binary 200 B} a long-lived library signer (ecsigner / edsigner) constructed with that name signs through signutil.SignPayload; oracle: the JWS verifies under the matching JWK and is rejected under a foreign key of the same type; non-trivial = a name other than the key type's own")
+	names := []string{"ES256", "ES256K", "ES384", "ES512", "EdDSA", "alg"}
+	payloads := [][]byte{[]byte(`{"deltaHash":"EiD...","n":1}`), {0x00}, bytesOf(200)}
+	item := 0
+	for _, kt := range keys.AllTypes {
+		item++
+		if !ev.Mine(item) {
+			continue
+		}
+		k := keys.Get(kt, "c09-alg", 1)
+		foreign := keys.Get(kt, "c09-alg", 2)
+		for _, name := range names {
+			for _, kid := range []string{"", "k1"} {
+				var s verifhooks.Signer
+				if kt == keys.Ed25519 {
+					s = edsigner.New(k.Ed25519Private(), name, kid)
+				} else {
+					s = ecsigner.New(k.ECDSAPrivate(), name, kid)
+				}
+				// the signer is used for all payloads, twice each (long-lived)
+				for round := 0; round < 2; round++ {
+					for pi, payload := range payloads {
+						compact, err := verifhooks.SignPayload(payload, s)
+						if err != nil {
+							t.Fatalf("library signer %s/%s failed: %v", kt, name, err)
+						}
+						tag := fmt.Sprintf("%s announced as %s kid=%q payload=%d round=%d", kt, name, kid, pi, round)
+						cls := "class:alg-name-own"
+						if name != kt.Alg() {
+							cls = "class:alg-name-other"
+						}
+						c := &Case{Compact: compact, Key: jwkOf(k), Accept: true, Note: "genuine, library signer: " + tag}
+						kind, msg := evalCase(c)
+						ev.Record(chkSweep, name != kt.Alg(), ev.Hash(c.Compact, c.Key), cls, "keytype:"+kt.String(), "expect-accept:true")
+						if kind != "" {
+							ev.Fail(t, chkSweep, kind, kind+"/alg-name-matrix", c, "%s", msg)
+						}
+						judge(t, chkSweep, &Case{Compact: compact, Key: jwkOf(foreign), Accept: false, Note: "foreign key of the same type: " + tag}, "class:alg-name-foreign-key", "keytype:"+kt.String())
+					}
+				}
+			}
+		}
+	}
+}
+
+func bytesOf(n int) []byte {
+	b := make([]byte, n)
+	for i := range b {
+		b[i] = byte(i*7 + 3)
+	}
+	return b
+}
+
 // ---- malformed JWKs with a genuine signature ---------------------------------------------------------------
 
 func b64(b []byte) string { return base64.RawURLEncoding.EncodeToString(b) }
